@@ -711,7 +711,7 @@ fn retry_case<const N: u32>() {
 
 const MAX_REGIONS_CAP: u32 = 0x0010_0000;
 
-// @harness props=C14 tier=thorough timeout=7200 mem=40 stubbing=1 replay=scenario:page_alter
+// @harness props=C14 tier=thorough timeout=3600 mem=40 stubbing=1 replay=scenario:page_alter attempt=1
 // @desc (attempted: did not close in 2400 s / 17 GB in the quick tier) allocate_helper_retry (region selection through the region tracker) on a one-region database from ANY allocator state satisfying R and ANY tracker state satisfying T (optimistic: a region with a free block of order >= o is not marked full at o): a block is handed out iff the region has an aligned free block of that order; a refusal changes nothing; afterwards T still holds - a region that contains a suitable free block is never reported full
 // @functions TransactionalMemory::allocate_helper_retry, RegionTracker::{find_free,mark_full}, BtreeBitmap::{find_first_unset,set,update_to_root}, BuddyAllocator::{alloc,alloc_inner}
 // @bound one region of 13 (resp. 16) pages, capacity 16, 5 tracked orders (the real tracker has 21), tracker bitmaps with the real 4-level shape; allocator words, tracker bits and the order arbitrary; allocation policy Default (alloc); alloc_lowest is outside
@@ -723,7 +723,7 @@ fn c14_tracker_alloc_path_n13() {
     retry_case::<13>();
 }
 
-// @harness props=C14 tier=thorough timeout=3600 mem=32 stubbing=1 replay=scenario:page_alter
+// @harness props=C14 tier=thorough timeout=3600 mem=32 stubbing=1 replay=scenario:page_alter attempt=1
 // @desc as c14_tracker_alloc_path_n13 for a full 16-page region
 // @functions TransactionalMemory::allocate_helper_retry, RegionTracker::{find_free,mark_full}
 // @bound one region of 16 pages
